@@ -43,6 +43,8 @@ type c06Case struct {
 	Rel     bool              `json:"relative_percentages,omitempty"`
 	Out     string            `json:"out,omitempty"`   // agg: top | traces
 	Flags   []string          `json:"flags,omitempty"` // agg: granularity / -noinlines
+	TagRoot string            `json:"tagroot,omitempty"` // tagrl / agg: -tagroot=k1,k2
+	TagLeaf string            `json:"tagleaf,omitempty"`
 }
 
 // ---------- small helpers (own copies: this runner must not depend on another property's files) ----------
@@ -826,6 +828,7 @@ func c06Scale(c *Ctx, cs c06Case) {
 var c06CliOpts = []string{"focus", "ignore", "hide", "show", "show_from", "tagfocus", "tagignore", "tagshow", "taghide"}
 
 type cliOut struct {
+	prof  *profile.Profile // the parsed -proto output
 	views []string
 	err   string // "" | exit | parse
 	msg   string
@@ -869,7 +872,7 @@ func runPprofProto(pprofBin, dir string, idx int, p *profile.Profile, opts map[s
 	}
 	os.Remove(in)
 	os.Remove(out)
-	return cliOut{views: viewList(q)}
+	return cliOut{views: viewList(q), prof: q}
 }
 
 // tagfTok builds the `tagf` token form of one tagfocus/tagignore option.
@@ -1142,6 +1145,7 @@ func runPprofAgg(pprofBin, dir string, idx int, p *profile.Profile, cs c06Case) 
 		args = append(args, "-relative_percentages")
 	}
 	args = append(args, cs.Flags...)
+	args = append(args, tagFlags(cs)...)
 	for _, k := range c06CliOpts {
 		if v := cs.Opts[k]; v != "" {
 			args = append(args, "-"+k+"="+v)
@@ -1199,11 +1203,18 @@ func c06AggEval(c *Ctx, cs c06Case, out, errs string) {
 		c.Res.HarnessError = errs
 		return
 	}
+	baseCanon := cs.Profile
+	if cs.TagRoot != "" || cs.TagLeaf != "" {
+		// -tagroot/-tagleaf rewrite the stacks BEFORE the filters run: the rule applies to the
+		// frame lists extended by the label pseudo frames
+		p = extendWithTags(p, cs.TagRoot, cs.TagLeaf)
+		baseCanon = Canon(p)
+	}
 	ot, ok := optsTok(cs.Opts, p)
 	if !ok {
 		return
 	}
-	rep := c.Drv.Ask("apply.model " + ot + " " + cs.Profile)
+	rep := c.Drv.Ask("apply.model " + ot + " " + baseCanon)
 	if rep == "err" || rep == "panic" {
 		if errs == "" {
 			c.Disagree("C06/agg-model/model-"+rep+"-cli-ok", "model rejects the options, pprof accepts them", "correspondence compileTagFilter model ~ pprof", cs)
@@ -1274,6 +1285,206 @@ func c06AggEval(c *Ctx, cs c06Case, out, errs string) {
 		}
 	}
 	_ = tag
+}
+
+// ---------- -tagroot / -tagleaf: label pseudo frames are added before the filters run ----------
+
+func tagFlags(cs c06Case) []string {
+	var fs []string
+	if cs.TagRoot != "" {
+		fs = append(fs, "-tagroot="+cs.TagRoot)
+	}
+	if cs.TagLeaf != "" {
+		fs = append(fs, "-tagleaf="+cs.TagLeaf)
+	}
+	return fs
+}
+
+func splitKeys(s string) []string {
+	var out []string
+	for _, k := range strings.Split(s, ",") {
+		if k != "" {
+			out = append(out, k)
+		}
+	}
+	return out
+}
+
+// labelFrameName: the documented name of a label pseudo frame — the sample's string values of the
+// key, then its numeric values formatted with their units (measurement.ScaledLabel, exported),
+// joined by commas.
+func labelFrameName(s *profile.Sample, k string) string {
+	vals := append([]string(nil), s.Label[k]...)
+	nl, nu := s.NumLabel[k], s.NumUnit[k]
+	if len(nl) == len(nu) || len(nu) == 0 {
+		for i, v := range nl {
+			if len(nu) != 0 {
+				vals = append(vals, measurement.ScaledLabel(v, nu[i], "minimum"))
+			} else {
+				vals = append(vals, measurement.ScaledLabel(v, "", ""))
+			}
+		}
+	}
+	return strings.Join(vals, ",")
+}
+
+// extendWithTags is the harness's own statement of what -tagroot/-tagleaf mean: every sample gets,
+// per root key, a frame at the root side (first key outermost) and, per leaf key, a frame at the
+// leaf side (last key innermost); the frame's function is named after the label values, its file
+// name is the key. Ids are fresh (above every existing id); they do not enter the comparison.
+func extendWithTags(p0 *profile.Profile, root, leaf string) *profile.Profile {
+	p, _ := ParseCanon(Canon(p0))
+	var maxL, maxF uint64
+	for _, l := range p.Location {
+		if l.ID > maxL {
+			maxL = l.ID
+		}
+	}
+	for _, f := range p.Function {
+		if f.ID > maxF {
+			maxF = f.ID
+		}
+	}
+	type key struct{ name, file string }
+	seen := map[key]*profile.Location{}
+	mk := func(name, file string) *profile.Location {
+		if l, ok := seen[key{name, file}]; ok {
+			return l
+		}
+		maxF++
+		maxL++
+		f := &profile.Function{ID: maxF, Name: name, Filename: file}
+		l := &profile.Location{ID: maxL, Line: []profile.Line{{Function: f}}}
+		p.Function = append(p.Function, f)
+		p.Location = append(p.Location, l)
+		seen[key{name, file}] = l
+		return l
+	}
+	rk, lk := splitKeys(root), splitKeys(leaf)
+	for _, s := range p.Sample {
+		var locs []*profile.Location
+		for i := len(lk) - 1; i >= 0; i-- { // last leaf key is the new leaf
+			locs = append(locs, mk(labelFrameName(s, lk[i]), lk[i]))
+		}
+		locs = append(locs, s.Location...)
+		for i := len(rk) - 1; i >= 0; i-- { // first root key is the new root
+			locs = append(locs, mk(labelFrameName(s, rk[i]), rk[i]))
+		}
+		if len(rk)+len(lk) > 0 {
+			s.Location = locs
+		}
+	}
+	return p
+}
+
+// semViews: the views of a profile with ids erased (function name, file, line, column, binary).
+func semViews(p *profile.Profile) []string {
+	vs := viewList(p)
+	out := make([]string, len(vs))
+	for i, s := range p.Sample {
+		head, _ := viewFrames(vs[i])
+		var fr []string
+		for _, l := range s.Location {
+			mf := "-"
+			if l.Mapping != nil {
+				mf = l.Mapping.File
+			}
+			if len(l.Line) == 0 {
+				fr = append(fr, fmt.Sprintf("<unsymbolized>@%q", mf))
+			}
+			for _, ln := range l.Line {
+				fr = append(fr, fmt.Sprintf("%q %q %d %d @%q", ln.Function.Name, ln.Function.Filename, ln.Line, ln.Column, mf))
+			}
+		}
+		out[i] = head + " [" + strings.Join(fr, " | ") + "]"
+	}
+	return out
+}
+
+// c06TagRLEval: `pprof -proto -tagroot/-tagleaf <filters>` against the rule on the extended stacks.
+func c06TagRLEval(c *Ctx, cs c06Case, res cliOut) {
+	p0, err := ParseCanon(cs.Profile)
+	if err != nil {
+		c.Res.HarnessError = "ParseCanon: " + err.Error()
+		return
+	}
+	if res.err == "harness" {
+		c.Res.HarnessError = res.msg
+		return
+	}
+	p := extendWithTags(p0, cs.TagRoot, cs.TagLeaf)
+	ot, ok := optsTok(cs.Opts, p)
+	if !ok {
+		return
+	}
+	rep := c.Drv.Ask("apply.model " + ot + " " + Canon(p))
+	if rep == "err" || rep == "panic" {
+		if res.err == "" {
+			c.Disagree("C06/tagrl-model/model-"+rep+"-cli-ok", "model rejects the options, pprof accepts them", "correspondence compileTagFilter model ~ pprof", cs)
+		}
+		return
+	}
+	i := strings.Index(rep, " | ")
+	if !strings.HasPrefix(rep, "ok ") || i < 0 {
+		c.Disagree("C06/tagrl-model/"+c06firstWord(rep), c06trunc(rep), "correspondence applyFocus model ~ pprof", cs)
+		return
+	}
+	q, err := ParseCanon(rep[3:i])
+	if err != nil {
+		c.Disagree("C06/tagrl-model/unreadable", c06trunc(rep), "driver", cs)
+		return
+	}
+	c.Res.ModelCompared++
+	if res.err != "" {
+		c.Violation("C06/tagrl/"+optSet(cs.Opts)+"/"+res.err, fmt.Sprintf("pprof -proto -tagroot=%q -tagleaf=%q with filter options fails on a valid profile: %s", cs.TagRoot, cs.TagLeaf, res.msg), cs)
+		return
+	}
+	want, got := semViews(q), semViews(res.prof)
+	if kind, rv, sv := diffSem(got, want); kind != "" {
+		c.Violation("C06/tagrl/"+optSet(cs.Opts)+"/"+kind, fmt.Sprintf("pprof -proto -tagroot=%q -tagleaf=%q %v differs from the rule on the stacks extended by the label frames (%s): real %q, rule %q", cs.TagRoot, cs.TagLeaf, cs.Opts, kind, c06trunc(rv), c06trunc(sv)), cs)
+	}
+}
+
+func diffSem(real, spec []string) (string, string, string) {
+	for i := 0; i < len(real) && i < len(spec); i++ {
+		if real[i] != spec[i] {
+			if len(real) < len(spec) {
+				return "sample-missing", real[i], spec[i]
+			}
+			if len(real) > len(spec) {
+				return "sample-extra", real[i], spec[i]
+			}
+			return "sample-differs", real[i], spec[i]
+		}
+	}
+	switch {
+	case len(real) < len(spec):
+		return "sample-missing", "", spec[len(real)]
+	case len(real) > len(spec):
+		return "sample-extra", real[len(spec)], ""
+	}
+	return "", "", ""
+}
+
+// sparsifyIDs rewrites function and location ids to a sparse, non-dense (sometimes huge) id space.
+func sparsifyIDs(r *Rng, p *profile.Profile) {
+	base := uint64(0)
+	if r.Chance(25) {
+		base = 1 << uint(33+r.Intn(28))
+	}
+	id := base
+	for _, f := range p.Function {
+		id += 1 + uint64(r.Intn(3))
+		f.ID = id
+	}
+	id = base
+	if r.Chance(50) {
+		id = uint64(r.Intn(5))
+	}
+	for _, l := range p.Location {
+		id += 1 + uint64(r.Intn(3))
+		l.ID = id
+	}
 }
 
 // genRxTargeted: an expression that matches ONLY a source file name, only a mapping (binary)
@@ -1862,6 +2073,19 @@ func runC06Case(c *Ctx, cs c06Case) {
 		}
 		defer os.RemoveAll(dir)
 		c06CliEval(c, cs, runPprofProto(c.Pprof, dir, 0, p, cs.Opts))
+	case "tagrl":
+		p, err := ParseCanon(cs.Profile)
+		if err != nil {
+			c.Res.HarnessError = err.Error()
+			return
+		}
+		dir, err := os.MkdirTemp("", "pv-c06-")
+		if err != nil {
+			c.Res.HarnessError = err.Error()
+			return
+		}
+		defer os.RemoveAll(dir)
+		c06TagRLEval(c, cs, runPprofProto(c.Pprof, dir, 0, p, cs.Opts, tagFlags(cs)...))
 	case "agg":
 		p, err := ParseCanon(cs.Profile)
 		if err != nil {
@@ -1896,7 +2120,7 @@ func runC06Case(c *Ctx, cs c06Case) {
 }
 
 func runC06(c *Ctx) {
-	c.Res.Rule = "profiles with inlined multi-line locations, shared locations, unsymbolized locations, empty stacks, mapping files and labels with units; expressions from a grammar (literal, anchored, alternation, class, substring, match-all, match-none, case-insensitive; numeric ranges a, a:, :b, a:b with signs and units, key=…); streams: name filters (all 16 on/off combinations of focus/ignore/hide/show), focus=R/ignore=R partition, show_from (main stream = inputs satisfying the hypothesis of showFrom_spec_partial, the rest on the known-finding stream), tagshow/taghide, FilterSamplesByTag with label predicates, measurement.Scale, `pprof -proto` with 1–4 of the 9 filter options (plus a unit grid for tagfocus/tagignore: range forms a, a:, :a, a:b × unit pairs same/finer/coarser/none/unknown/cross-family × label values at, just below, just above and halfway between multiples of the coarser unit), `pprof -top` with and without -relative_percentages (which total the header reports), and `pprof -top`/`-traces` through every granularity (default, functions, filefunctions, files, lines, addresses) and -noinlines with focus/ignore/hide/show expressions that match only a source file name, only a mapping name or only an inlined frame (kept samples and totals must be the rule's on the un-aggregated profile). non-trivial = some expression of the case matches at least one but not all locations in use (name/show_from/cli), some but not all label keys (tags), or the predicate selects some but not all samples (bytag); distinct by options + canonical profile"
+	c.Res.Rule = "profiles with inlined multi-line locations, shared locations, unsymbolized locations, empty stacks, mapping files and labels with units; expressions from a grammar (literal, anchored, alternation, class, substring, match-all, match-none, case-insensitive; numeric ranges a, a:, :b, a:b with signs and units, key=…); streams: name filters (all 16 on/off combinations of focus/ignore/hide/show), focus=R/ignore=R partition, show_from (main stream = inputs satisfying the hypothesis of showFrom_spec_partial, the rest on the known-finding stream), tagshow/taghide, FilterSamplesByTag with label predicates, measurement.Scale, `pprof -proto` with 1–4 of the 9 filter options (plus a unit grid for tagfocus/tagignore: range forms a, a:, :a, a:b × unit pairs same/finer/coarser/none/unknown/cross-family × label values at, just below, just above and halfway between multiples of the coarser unit), `pprof -top` with and without -relative_percentages (which total the header reports), and `pprof -top`/`-traces` through every granularity (default, functions, filefunctions, files, lines, addresses) and -noinlines with focus/ignore/hide/show expressions that match only a source file name, only a mapping name or only an inlined frame (kept samples and totals must be the rule's on the un-aggregated profile), and `pprof -proto`/-traces/-top with -tagroot/-tagleaf (one or several keys, string and numeric labels, absent keys) × every filter on profiles with sparse / huge location and function ids (the rule is evaluated on the stacks extended by the label pseudo frames; an error exit is a violation). non-trivial = some expression of the case matches at least one but not all locations in use (name/show_from/cli), some but not all label keys (tags), or the predicate selects some but not all samples (bytag); distinct by options + canonical profile"
 	if c.Replay != "" {
 		var cs c06Case
 		if err := c.LoadReplay(&cs); err != nil {
@@ -2190,6 +2414,10 @@ func runC06(c *Ctx) {
 	grans := [][]string{nil, nil, {"-functions"}, {"-filefunctions"}, {"-files"}, {"-lines"}, {"-addresses"}}
 	for i := range acases {
 		p := genC06Profile(r, true)
+		if r.Chance(50) {
+			sparsifyIDs(r, p)
+			c.Res.Hit("agg:sparse-ids")
+		}
 		var buf bytes.Buffer
 		p.Write(&buf)
 		p, err = profile.ParseData(buf.Bytes())
@@ -2212,6 +2440,21 @@ func runC06(c *Ctx) {
 			flags = append(flags, "-noinlines")
 		}
 		acases[i] = c06Case{Kind: "agg", Stream: "main", Profile: Canon(p), Opts: opts, Rel: i%4 >= 2, Out: []string{"traces", "top"}[i%2], Flags: flags}
+		if i%3 == 0 { // label pseudo frames added before the filters, seen through an aggregating output
+			ks := keyCands(p)
+			if len(ks) > 0 {
+				if r.Bool() {
+					acases[i].TagRoot = ks[r.Intn(len(ks))]
+				} else {
+					acases[i].TagLeaf = ks[r.Intn(len(ks))]
+				}
+				if r.Chance(50) { // a filter on the label frame itself (value or key)
+					cands := append(tagValCands(p), ks...)
+					acases[i].Opts = map[string]string{k: "^" + regexp.QuoteMeta(cands[r.Intn(len(cands))]) + "$"}
+				}
+				c.Res.Hit("agg:with-tagroot-or-tagleaf")
+			}
+		}
 		aprofs[i] = p
 		c.Res.Hit("agg:expr:" + kind)
 		c.Res.Hit("agg:" + acases[i].Out + ":" + strings.Join(flags, "") + fmt.Sprintf(":rel=%v", acases[i].Rel))
@@ -2235,5 +2478,93 @@ func runC06(c *Ctx) {
 		}
 		c.Res.Count(caseKey(cs)+fmt.Sprint(cs.Rel, cs.Out, cs.Flags), c06Stats(c, aprofs[i], nameOpts))
 		c06AggEval(c, cs, aout[i][0], aout[i][1])
+	}
+	// ---- -tagroot / -tagleaf (stacks rewritten before filtering) × every filter, sparse ids
+	nTR := 220 * c.Scale
+	tcs := make([]c06Case, nTR)
+	tps := make([]*profile.Profile, nTR)
+	for i := range tcs {
+		p := genC06Profile(r, true)
+		for k := 0; k < 20 && len(keyCands(p)) == 0; k++ {
+			p = genC06Profile(r, true)
+		}
+		if i%5 != 0 {
+			sparsifyIDs(r, p)
+			c.Res.Hit("tagrl:sparse-ids")
+		}
+		var buf bytes.Buffer
+		p.Write(&buf)
+		p, err = profile.ParseData(buf.Bytes())
+		if err != nil {
+			c.Res.HarnessError = "generated profile does not round-trip: " + err.Error()
+			return
+		}
+		ks := append(keyCands(p), "nokey")
+		pickKeys := func() string {
+			n := 1 + r.Intn(2)
+			var out []string
+			for j := 0; j < n; j++ {
+				out = append(out, ks[r.Intn(len(ks))])
+			}
+			return strings.Join(out, ",")
+		}
+		cs := c06Case{Kind: "tagrl", Stream: "main"}
+		switch i % 3 {
+		case 0:
+			cs.TagRoot = pickKeys()
+		case 1:
+			cs.TagLeaf = pickKeys()
+		default:
+			cs.TagRoot, cs.TagLeaf = pickKeys(), pickKeys()
+		}
+		ext := extendWithTags(p, cs.TagRoot, cs.TagLeaf)
+		names := fnNames(ext) // includes the label frames' names (values) and file names (keys)
+		opts := map[string]string{}
+		k := []string{"focus", "ignore", "hide", "show", "show_from", "tagfocus", "tagignore"}[i%7]
+		switch k {
+		case "tagfocus", "tagignore":
+			opts[k] = genTagFilter(r, p, false)
+		default:
+			if r.Chance(50) { // aim at a label frame: its value or its key
+				cands := append(tagValCands(p), keyCands(p)...)
+				if len(cands) > 0 {
+					opts[k] = "^" + regexp.QuoteMeta(cands[r.Intn(len(cands))]) + "$"
+				}
+			}
+			if opts[k] == "" {
+				opts[k] = genRx(r, names)
+			}
+		}
+		if r.Chance(30) {
+			k2 := []string{"focus", "ignore", "hide", "show"}[r.Intn(4)]
+			if opts[k2] == "" {
+				opts[k2] = genRx(r, names)
+			}
+		}
+		cs.Profile, cs.Opts = Canon(p), opts
+		tcs[i], tps[i] = cs, p
+		c.Res.Hit("tagrl:" + optSet(opts))
+	}
+	touts := make([]cliOut, nTR)
+	for i := range tcs {
+		wg.Add(1)
+		sem <- struct{}{}
+		go func(i int) {
+			defer wg.Done()
+			defer func() { <-sem }()
+			touts[i] = runPprofProto(c.Pprof, dir, 100000+i, tps[i], tcs[i].Opts, tagFlags(tcs[i])...)
+		}(i)
+	}
+	wg.Wait()
+	for i, cs := range tcs {
+		ext := extendWithTags(tps[i], cs.TagRoot, cs.TagLeaf)
+		nameOpts := map[string]string{}
+		for _, k := range []string{"focus", "ignore", "hide", "show", "show_from"} {
+			if cs.Opts[k] != "" {
+				nameOpts[k] = cs.Opts[k]
+			}
+		}
+		c.Res.Count(caseKey(cs)+cs.TagRoot+"/"+cs.TagLeaf, c06Stats(c, ext, nameOpts) || len(nameOpts) == 0)
+		c06TagRLEval(c, cs, touts[i])
 	}
 }
